@@ -185,6 +185,22 @@ static int c16_grid(Ctx &ctx) {
     for (size_t len = 0; len <= maxlen; len++) {
       if ((idx++ % (size_t)ctx.nshards) != (size_t)ctx.shard) continue;
       Bytes msg = pool.substr((len * 7) % 64, len);
+      // the same lengths with extreme contents (one-shot and one split): all 0xff, all 0x00
+      for (int ext = 0; ext < 2; ext++) {
+        Bytes em(len, ext ? '\0' : '\xff');
+        Bytes ew = ref_digest(prim, em);
+        ctx.st.evaluations += 2;
+        ctx.st.executed += 2;
+        if (lib_digest_chunked(prim, em, std::vector<size_t>{len}, len & 15) != ew || lib_digest_chunked(prim, em, std::vector<size_t>{len / 3, len - len / 3}, (len + 3) & 15) != ew) {
+          KV c;
+          c.seti("prim", prim);
+          c.set("msg", em);
+          c.seti("off", (long long)(len & 15));
+          ctx.current(c);
+          ctx.fail(c, std::string("C16 ") + PRIM_NAME[prim] + " differs from the standard function for " + std::to_string(len) + " bytes of " + (ext ? "0x00" : "0xff"));
+          return 1;
+        }
+      }
       Bytes want = ref_digest(prim, msg);
       for (size_t split = 0; split <= len; split++) {
         ctx.st.evaluations++;
@@ -497,7 +513,16 @@ static int c16_run(Ctx &ctx) {
     int prim = (int)g::pick(0, P_COUNT - 1);
     c.seti("prim", prim);
     size_t len = g::coin(1, 4) ? (size_t)g::pick(0, 1100) : g::coin() ? (size_t)g::pick(0, 300) : (size_t)g::oneof<int>({0, 1, 55, 56, 57, 63, 64, 65, 111, 112, 113, 119, 120, 127, 128, 129, 183, 184, 191, 192, 239, 240, 255, 256, 257, 511, 512, 1023, 1024, 1025});
-    c.set("msg", g::rbytes(len, 0));
+    {
+      // content: random, all 0x00, all 0xff, random with an aligned run of 0xff / 0x00 (carry chains, padding look-alikes)
+      int cs = g::wpick({8, 1, 2, 3, 1});
+      Bytes m = cs == 1 ? Bytes(len, '\0') : cs == 2 ? Bytes(len, '\xff') : g::rbytes(len, 0);
+      if ((cs == 3 || cs == 4) && len >= 8) {
+        size_t at = (size_t)g::pick(0, (long long)len - 8) & ~(size_t)7, rl = (size_t)g::pick(8, 128);
+        for (size_t i = at; i < len && i < at + rl; i++) m[i] = cs == 3 ? '\xff' : '\0';
+      }
+      c.set("msg", m);
+    }
     int nch = g::wpick({3, 4, 3});
     Bytes sp;
     size_t n = nch == 0 ? 1 : nch == 1 ? 2 : (size_t)g::pick(3, 12);
